@@ -229,9 +229,11 @@ class UpwindConstField(AxisOb):
     props = ('C06',)
     with_upwind = False
 
+    uu_kind = None
+
     def setup(self, w):
         u = w.facevar('u')
-        args = (w.facevar('uu'),) if self.with_upwind else ()
+        args = (w.facevar('uu', self.uu_kind),) if self.with_upwind else ()
         M, ps = parts(builder(adv, 'convectionUpwindTerm', w.grid)(u, *args))
         d, ds = parts(builder(cal, 'divergenceTerm', w.grid)(u))
         return dict(ps=ps, ds=ds, one=ones_field(w))
@@ -244,6 +246,14 @@ class UpwindConstField(AxisOb):
 class UpwindConstFieldUU(UpwindConstField):
     name = 'convectionUpwindTerm/const_field+u_upwind'
     with_upwind = True
+
+
+class UpwindConstFieldUUnz(UpwindConstField):
+    """the same clause restricted to upwind-direction fields without exact zeros (the unrestricted clause above is
+    a recorded finding; this one keeps the u_upwind code path under proof)"""
+    name = 'convectionUpwindTerm/const_field+u_upwind(nonzero)'
+    with_upwind = True
+    uu_kind = 'nonzero'
 
 
 class TvdConstField(AxisOb):
@@ -303,9 +313,11 @@ class UpwindEqualsChain(AxisOb):
     props = ('C05',)
     with_upwind = False
 
+    uu_kind = None
+
     def setup(self, w):
         u = w.facevar('u')
-        uu = w.facevar('uu') if self.with_upwind else u
+        uu = w.facevar('uu', self.uu_kind) if self.with_upwind else u
         args = (uu,) if self.with_upwind else ()
         phi = w.rawcell('phi')
         M, ps = parts(builder(adv, 'convectionUpwindTerm', w.grid)(u, *args))
@@ -322,6 +334,12 @@ class UpwindEqualsChainUU(UpwindEqualsChain):
     with_upwind = True
 
 
+class UpwindEqualsChainUUnz(UpwindEqualsChain):
+    name = 'convectionUpwindTerm/equals_div_u_upwindMean+u_upwind(nonzero)'
+    with_upwind = True
+    uu_kind = 'nonzero'
+
+
 class TvdZeroLimiter(AxisOb):
     name = 'convectionTvdRHS/zero_limiter_zero'
     props = ('C05',)
@@ -336,3 +354,128 @@ class TvdZeroLimiter(AxisOb):
 
 
 from fvverif import trace as T   # noqa: E402
+
+
+# ------------------------------------------------------------------------------------------------
+#  conservation: interior face fluxes cancel                                              (C01)
+
+class _Conservation(AxisOb):
+    """For the interior face f between cells P and P+e_a:  V_P*T_P + V_{P+}*T_{P+}  does not depend on the
+    coefficient on f (T = the term applied to an arbitrary field incl. ghosts; V = mesh.cellvolume as reported
+    by the real _getCellVolumes).  With locality (T_Q mentions only coefficients on faces of Q) this is exactly
+    'what leaves a cell through an interior face enters its neighbour'."""
+    props = ('C01',)
+    coef = 'k'
+
+    def term(self, w, k, phi):
+        """-> list of per-axis callables P -> T_P"""
+        raise NotImplementedError
+
+    def setup(self, w):
+        k = w.facevar(self.coef)
+        phi = w.rawcell('phi')
+        return dict(T=self.term(w, k, phi), V=w.mesh.cellvolume, k=k)
+
+    def region(self, w):
+        # P interior and P+e_a interior is imposed per axis inside claims (needs N_a >= 2)
+        return w.interior()
+
+    def points(self, w):
+        return w.interior_points()
+
+    def W(self, w, S, P, a):
+        Q = shift(P, a, 1)
+        return cell_volume(w, S, P) * S['T'][a](P) + cell_volume(w, S, Q) * S['T'][a](Q)
+
+    def claims(self, w, S, P, a):
+        fidx = face_idx(P, a, 1)
+        name = self.coef + AX[a]
+        if w.symbolic:
+            if not CTX.decide(I(P[a]) <= w.N[a] - 1):
+                return []
+            Wv = R.of(self.W(w, S, P, a))
+            fresh = R.var(name + "'")
+            target = tuple(I(i) for i in fidx)
+
+            def sub(nm, idx):
+                if nm == name and all(CTX.decide(I(x) == y) for x, y in zip(idx, target)):
+                    return fresh
+                return None
+            W2 = subst_vars(Wv, sub)
+            out = [('interior_face_flux_cancels[%s]' % AX[a], w.eq(Wv, W2))]
+            # locality: T_P mentions the a-coefficient only on the two a-faces of P
+            TP = R.of(S['T'][a](P))
+            lo = tuple(I(i) for i in face_idx(P, a, 0))
+            ok = True
+            for v in variables(TP):
+                if v.node[1] == name:
+                    idx = v.node[2]
+                    on_lo = all(CTX.decide(I(x) == y) for x, y in zip(idx, lo))
+                    on_hi = all(CTX.decide(I(x) == y) for x, y in zip(idx, target))
+                    ok = ok and (on_lo or on_hi)
+            out.append(('face_coeff_local[%s]' % AX[a], B.const(ok)))
+            return out
+        if P[a] > w.N[a] - 1:
+            return []
+        W1 = self.W(w, S, P, a)
+        # perturb the coefficient on the shared face and recompute with the real code
+        from fvverif.world import RealWorld
+        import copy
+        w2 = RealWorld(w.grid, w.N, seed=0)
+        w2.src.values = {k_: (v.copy() if hasattr(v, 'copy') else v) for k_, v in w.src.values.items()}
+        w2.src.constraints = dict(w.src.constraints)
+        arr = w2.src.values[name]
+        arr[tuple(fidx)] = arr[tuple(fidx)] + 3
+        w2.choice_rng = None
+        w2.rng = __import__('random').Random(12345)
+        w.rng = __import__('random').Random(12345)
+        S2 = self.setup(w2)
+        W2 = self.W(w2, S2, P, a)
+        w.scale = 50.0
+        return [('interior_face_flux_cancels[%s]' % AX[a], w.eq(W1, W2))]
+
+
+class DiffConservation(_Conservation):
+    name = 'diffusionTerm/conservation'
+    coef = 'D'
+
+    def term(self, w, k, phi):
+        M, ps = parts(builder(dif, 'diffusionTerm', w.grid)(k))
+        return [(lambda P, Ma=Ma: w.apply(Ma, phi._value, P)) for Ma in ps]
+
+
+class ConvConservation(_Conservation):
+    name = 'convectionTerm/conservation'
+    coef = 'u'
+
+    def term(self, w, k, phi):
+        M, ps = parts(builder(adv, 'convectionTerm', w.grid)(k))
+        return [(lambda P, Ma=Ma: w.apply(Ma, phi._value, P)) for Ma in ps]
+
+
+class UpwindConservation(_Conservation):
+    name = 'convectionUpwindTerm/conservation'
+    coef = 'u'
+
+    def term(self, w, k, phi):
+        M, ps = parts(builder(adv, 'convectionUpwindTerm', w.grid)(k))
+        return [(lambda P, Ma=Ma: w.apply(Ma, phi._value, P)) for Ma in ps]
+
+
+class TvdConservation(_Conservation):
+    name = 'convectionTvdRHS/conservation'
+    coef = 'u'
+
+    def term(self, w, k, phi):
+        FL = sym_limiter(w)
+        V, ps = parts(builder(adv, 'convectionTvdRHS', w.grid)(k, phi, FL))
+        return [(lambda P, Va=Va: w.vec(Va, P)) for Va in ps]
+
+
+class DivConservation(_Conservation):
+    name = 'divergenceTerm/conservation'
+    coef = 'F'
+
+    def term(self, w, k, phi):
+        V, ps = parts(builder(cal, 'divergenceTerm', w.grid)(k))
+        return [(lambda P, Va=Va: w.vec(Va, P)) for Va in ps]
